@@ -118,3 +118,5 @@ def _scan_raw_line(repo):
 P.scan('raw_line_flow', _scan_raw_line)
 P.bound('blocks', 'dyn/C14.py', 'blocks', 'random blocks rendered from a structure (line forms, spacings, lag spellings, comments, marker spellings, malformed lines): '
         '400 (quick) / 10000 (thorough)', 'classification = structure; series identical with / without comments; malformed lines reported')
+P.bound('descriptions', 'dyn/C14.py', 'descriptions', 'a model whose long names / descriptions are drawn from 10 free texts: 40 (quick) / 1000 (thorough) draws',
+        'free-text descriptions and long names emitted by the model never alter which equations exist or their solution')
